@@ -1794,6 +1794,39 @@ def dependency_on_evolution_without_effect_in_history(case, outcome, atoms):
 
 
 @explainer
+def model_name_reused_after_delete_in_one_run(case, outcome, atoms):
+    """A model is deleted by an evolution and a later release introduces a new
+    model under the same name: upgraded in ONE run from before the deletion, the
+    tool sees a model of that name on both sides, creates nothing, applies the
+    DeleteModel (drops the table) and stores a signature without the model; only
+    a second run creates the new model's table."""
+    from . import specs as S
+    h = case.get('history') or {}
+    deleted = set()
+    tables = set()
+    for s_ in h.get('steps', []):
+        if s_['type'] == 'evolve':
+            for m in s_['seq']:
+                if m['kind'] == 'DeleteModel':
+                    deleted.add((m['app'], m['model']))
+        elif (s_['app'], s_['model']['name']) in deleted:
+            tables.add(S.table_of(s_['app'], s_['model']))
+    if not tables:
+        return atoms
+    out = []
+    for a in atoms:
+        if str(a[1]).startswith(('direct', 'stepwise')):
+            if a[0] == 'path_schema' and a[2] in tables and a[3] == 'table':
+                continue
+            if a[0] in ('stored_sig_diff_nonempty', 'second_run_requires_evolution',
+                        'second_run_executed_sql', 'second_run_changed_state',
+                        'stored_sig_unequal'):
+                continue
+        out.append(a)
+    return out
+
+
+@explainer
 def rename_model_to_new_table_through_evolver(case, outcome, atoms):
     """RenameModel(..., db_table=<new name>) cannot be applied through the
     Evolver: the renamed model's table does not exist yet, so the Evolver
